@@ -47,6 +47,8 @@ INT, BOOL, STR, NONE = ("int",), ("bool",), ("str",), ("none",)
 FEATURE, RELATION, FMODEL, CTC = ("Feature",), ("Relation",), ("FeatureModel",), ("Constraint",)
 ASTT, NODE, NDATA, ASTOP, FTYPE, CARD = ("AST",), ("Node",), ("ndata",), ("astop",), ("ftype",), ("Cardinality",)
 UNKNOWN = ("?",)
+DOMAIN, RANGE = ("Domain",), ("Range",)
+FLOAT = ("float",)        # a Python float carried as its repr (the VFloat payload)
 ANY, ATTRIBUTE = ("any",), ("Attribute",)      # Any / Dict[str, Any] is a JSON-like value (aval)
 
 
@@ -70,7 +72,7 @@ def coq_ty(t):
     k = t[0]
     simple = {"int": "Z", "bool": "bool", "str": "string", "Feature": "lfeat", "Relation": "lrel",
               "FeatureModel": "fm", "Constraint": "ctc", "AST": "node", "Node": "node", "ndata": "ndata",
-              "astop": "astop", "ftype": "ftype", "any": "aval", "Attribute": "attr"}
+              "astop": "astop", "ftype": "ftype", "any": "aval", "Attribute": "attr", "char": "ascii", "float": "string", "Domain": "domain", "Range": "range"}
     if k in simple:
         return simple[k]
     if k == "none":
@@ -115,15 +117,21 @@ def join(a, b):
 
 
 def coq_str(s):
-    out = []
+    """a Python str as a Gallina string of its UTF-8 bytes; bytes outside printable ASCII are spelled "ddd"%char"""
+    parts, cur = [], []
     for b in s.encode("utf-8"):
         if b == 0x22:
-            out.append('""')
+            cur.append('""')
         elif 0x20 <= b <= 0x7E:
-            out.append(chr(b))
+            cur.append(chr(b))
         else:
-            raise Fail(f"non-printable byte in string literal {s!r}")
-    return '"' + "".join(out) + '"'
+            if cur:
+                parts.append('"' + "".join(cur) + '"')
+                cur = []
+            parts.append(f'(String "{b:03d}"%char "")')
+    if cur or not parts:
+        parts.append('"' + "".join(cur) + '"')
+    return parts[0] if len(parts) == 1 else "(" + " ++ ".join(parts) + ")%string"
 
 
 class Val:
@@ -166,6 +174,11 @@ ATTRS = {
     ("Attribute", "name"): ("(a_name {0})", STR),
     ("Attribute", "default_value"): ("(a_default {0})", ANY),
     ("Attribute", "null_value"): ("(a_null {0})", ANY),
+    ("Attribute", "domain"): ("(a_dom {0})", Opt(DOMAIN)),
+    ("Domain", "range_list"): ("(dom_ranges {0})", List(RANGE)),
+    ("Domain", "element_list"): ("(dom_elems {0})", List(ANY)),
+    ("Range", "min_value"): ("(rg_min {0})", ANY),
+    ("Range", "max_value"): ("(rg_max {0})", ANY),
 }
 # methods of the flamapy.core objects (hand model Model/Ast.v, as everywhere in this development)
 EXT_METHODS = {
@@ -176,6 +189,7 @@ EXT_METHODS = {
     ("Node", "is_binary_op"): ("(is_binary_op {0})", BOOL),
     ("AST", "get_operators"): ("(get_operators {0})", List(ASTOP)),
     ("AST", "pretty_str"): ("(pretty_str {0})", STR, True),
+    ("AST", "get_clauses"): ("(get_clauses {0})", List(List(NDATA)), True),
 }
 
 
@@ -183,6 +197,7 @@ EXT_METHODS = {
 OVERRIDE_RET = {("Constraint", "get_features"): List(NDATA),
                 (None, "left_right_features_from_simple_constraint"): Tup([NDATA, NDATA])}
 OVERRIDE_VAR = {("Constraint", "get_features", "features"): Dict(NDATA, NONE)}
+OVERRIDE_PARAM = {(None, "_double_literal", "value"): FLOAT}
 
 
 # functions of flamapy.core.models.ast (hand model Model/Ast.v, as everywhere in this development)
@@ -196,7 +211,12 @@ EXT_FUNCS = {
 # class-level dict tables, regenerated by tools/gen_tables*.py into Gen/Tables_*.v as functions to option
 CLASS_TABLES = {"GlencoeWriter.CTC_TYPES": ("glencoe_ctc_type", ASTOP, STR)}
 
-OBJECTS = {}      # class name -> [(field, type, init ast)] for classes translated as state records
+STRING_CONSTS = {"ascii_letters": "abcdefghijklmnopqrstuvwxyzABCDEFGHIJKLMNOPQRSTUVWXYZ", "digits": "0123456789",
+                 "ascii_lowercase": "abcdefghijklmnopqrstuvwxyz", "ascii_uppercase": "ABCDEFGHIJKLMNOPQRSTUVWXYZ"}
+CHAR = ("char",)          # one element of a str iterated with `for`: a byte of the UTF-8 string (see PyRt.v)
+
+OBJECTS = {}
+CTOR_PARAMS = {}      # class name -> [(field, type, init ast)] for classes translated as state records
 
 
 class FuncInfo:
@@ -210,6 +230,7 @@ class FuncInfo:
         self.intrinsic_eff = False
         self.mutator = False
         self.failed = None        # why this function could not be translated
+        self.kind = None          # "static" / "class" for methods without a receiver
         self.group = []
         self.has_while = False
         self.calls = set()
@@ -225,7 +246,7 @@ def parse_ann(a, ctx):
     if isinstance(a, ast.Name):
         m = {"int": INT, "bool": BOOL, "str": STR, "float": INT, "Feature": FEATURE, "Relation": RELATION,
              "FeatureModel": FMODEL, "Constraint": CTC, "AST": ASTT, "Node": NODE, "Any": ANY,
-             "Attribute": ATTRIBUTE, "VariabilityModel": FMODEL}      # execute(model) casts to FeatureModel
+             "Attribute": ATTRIBUTE, "VariabilityModel": FMODEL, "Domain": DOMAIN, "Range": RANGE}      # execute(model) casts to FeatureModel
         if a.id in OBJECTS:
             return ("obj", a.id)
         if a.id in m:
@@ -276,6 +297,11 @@ class Translator:
         self.probe = False
         self.enums = {}
         self.module_consts = {}
+        self.ifexp_as_str = False
+        self.written = None
+        self.join_ifs = False
+        self.module_tables = {}
+        self.module_strlists = {}
         self.fresh_returning = set()
 
     def fresh(self, base="v"):
@@ -332,6 +358,13 @@ class Translator:
                 return self.lift([v], lambda c: Val(f"(map (fun x => Some x) {c[0]})", ty))
         if v.ty == BOOL and ty == INT:
             return self.lift([v], lambda c: Val(f"(if {c[0]} then 1%Z else 0%Z)", INT))
+        if v.ty == ANY and ty == FLOAT:
+            self.cur.intrinsic_eff = True
+            return self.lift([v], lambda c: Val(f"(match {c[0]} with VFloat r => Ok r | _ => Err TypeError end)", FLOAT, True))
+        if v.ty == NDATA and ty == STR:
+            # a literal of a clause is used as text: data that is not a string has no str methods
+            self.cur.intrinsic_eff = True
+            return self.lift([v], lambda c: Val(f"(match {c[0]} with DStr s => Ok s | _ => Err AttributeError end)", STR, True))
         if ty == ANY:
             wrap = {STR: "(VStr {0})", INT: "(VInt {0})", BOOL: "(VBool {0})", NDATA: "(any_of_data {0})"}
             if v.ty in wrap:
@@ -393,6 +426,10 @@ class Translator:
             return Val(code, ty)
         if e.id in self.module_consts:
             return Val(coq_str(self.module_consts[e.id]), STR)
+        if e.id in self.module_tables:
+            return Val(f"py_{e.id}", ("table", e.id))
+        if e.id in self.module_strlists:
+            return Val("[" + "; ".join(coq_str(x) for x in self.module_strlists[e.id]) + "]", List(STR))
         if e.id in env.leaked:
             fail(e, "a variable first bound inside a loop is read after the loop")
         if e.id in self.vartypes or e.id in self.assigned_names:
@@ -402,6 +439,8 @@ class Translator:
         fail(e, "unknown name")
 
     def e_Attribute(self, e, env):
+        if isinstance(e.value, ast.Name) and e.value.id == "string" and e.attr in STRING_CONSTS:
+            return Val(coq_str(STRING_CONSTS[e.attr]), STR)
         if isinstance(e.value, ast.Name) and e.value.id == "ASTOperation":
             if e.attr in ASTOPS:
                 return Val(e.attr, ASTOP)
@@ -444,6 +483,10 @@ class Translator:
                     parts.append(v)
                 elif v.ty == INT:
                     parts.append(self.lift([v], lambda c: Val(f"(z_to_string {c[0]})", STR)))
+                elif v.ty == ANY:
+                    parts.append(self.lift([v], lambda c: Val(f"(aval_str {c[0]})", STR)))
+                elif v.ty == FLOAT:
+                    parts.append(Val(v.code, STR, v.eff))
                 else:
                     fail(e, f"f-string over {v.ty}")
             else:
@@ -492,6 +535,8 @@ class Translator:
             t = List(join(a.ty[1], b.ty[1]))
             a, b = self.coerce(a, t, e), self.coerce(b, t, e)
             return self.lift([a, b], lambda c: Val(f"({c[0]} ++ {c[1]})%list", t))
+        if a.ty == STR and b.ty == INT and isinstance(e.op, ast.Mult):
+            return self.lift([a, b], lambda c: Val(f"(py_str_repeat {c[0]} {c[1]})", STR))
         if a.ty == STR and b.ty == STR and isinstance(e.op, ast.Add):
             return self.lift([a, b], lambda c: Val(f"({c[0]} ++ {c[1]})%string", STR))
         ops = {ast.Add: "+", ast.Sub: "-", ast.Mult: "*"}
@@ -513,7 +558,24 @@ class Translator:
         return go(0, env)
 
     def e_IfExp(self, e, env):
-        return self.tr_if(e.test, env, lambda en: self.tr(e.body, en), lambda en: self.tr(e.orelse, en), e)
+        def branch(x):
+            def f(en):
+                v = self.tr(x, en)
+                if self.ifexp_as_str and v.ty == INT:
+                    return self.lift([v], lambda c: Val(f"(z_to_string {c[0]})", STR))
+                return v
+            return f
+        # `'*' if m == -1 else m` (Union[int, str], only ever printed): both arms as text
+        a = None
+        try:
+            a, b = self.tr(e.body, env), self.tr(e.orelse, env)
+        except Fail:
+            pass
+        self.ifexp_as_str = a is not None and {a.ty, b.ty} == {STR, INT}
+        try:
+            return self.tr_if(e.test, env, branch(e.body), branch(e.orelse), e)
+        finally:
+            self.ifexp_as_str = False
 
     def eq_code(self, a, b, ctx):
         """a == b"""
@@ -535,6 +597,15 @@ class Translator:
             if f is None:
                 fail(ctx, "Feature.__eq__ is not translated")
             return self.call_func(f, [a, b], ctx)
+        if ta[0] == "tuple" and tb[0] == "tuple" and len(ta[1]) == len(tb[1]):
+            xs = [self.fresh("a") for _ in ta[1]]
+            ys = [self.fresh("b") for _ in tb[1]]
+            eqs = [self.eq_code(Val(x, tx), Val(y, ty_), ctx) for x, y, tx, ty_ in zip(xs, ys, ta[1], tb[1])]
+            if any(q.eff for q in eqs):
+                fail(ctx, "tuple equality over elements whose == can raise")
+            body = " && ".join(q.code for q in eqs)
+            return self.lift([a, b], lambda c: Val(
+                f"(let '({', '.join(xs)}) := {c[0]} in let '({', '.join(ys)}) := {c[1]} in ({body}))", BOOL))
         if ta[0] == "list" and tb[0] == "list" and b.code == "[]":
             return self.lift([a], lambda c: Val(f"(py_is_nil {c[0]})", BOOL))
         if ta[0] == "list" and tb[0] == "list":
@@ -587,7 +658,18 @@ class Translator:
                 f"(let '({', '.join(xs)}) := {c[0]} in let '({', '.join(ys)}) := {c[1]} in {code})", BOOL))
         fail(ctx, f"no order for {ta} < {tb}")
 
+    def in_table(self, a, tname, ctx):
+        fn = f"py_{tname}"
+        if a.ty == NDATA:
+            return self.lift([a], lambda c: Val(
+                f"(match {c[0]} with DOp o => match {fn} o with Some _ => true | None => false end | _ => false end)", BOOL))
+        fail(ctx, f"`in` on a table with a key of type {a.ty}")
+
     def in_code(self, a, l, ctx):
+        if a.ty == CHAR and l.ty == STR:
+            return self.lift([a, l], lambda c: Val(f"(str_contains_char {c[0]} {c[1]})", BOOL))
+        if a.ty == STR and l.ty == STR and a.code.startswith('"') and len(a.code) == 3:
+            return self.lift([l], lambda c: Val(f"(str_contains_char {a.code}%char {c[0]})", BOOL))
         if l.ty[0] == "tuple" and len(set(l.ty[1])) == 1 and l.code.startswith("(") and not l.eff:
             l = Val("[" + l.code[1:-1].replace(", ", "; ") + "]", List(l.ty[1][0]))
         if l.ty[0] != "list":
@@ -615,6 +697,9 @@ class Translator:
             elif isinstance(op, ast.NotEq):
                 r = self.eq_code(a, b, e)
                 parts.append(self.lift([r], lambda c: Val(f"(negb {c[0]})", BOOL)))
+            elif isinstance(op, (ast.In, ast.NotIn)) and b.ty[0] == "table":
+                r = self.in_table(a, b.ty[1], e)
+                parts.append(r if isinstance(op, ast.In) else self.lift([r], lambda c: Val(f"(negb {c[0]})", BOOL)))
             elif isinstance(op, ast.In):
                 parts.append(self.in_code(a, b, e))
             elif isinstance(op, ast.NotIn):
@@ -743,6 +828,15 @@ class Translator:
             return self.lift([src], lambda c: Val(f"(py_flat_mapM (fun {pat} => {body.code}) {c[0]})", body.ty, True))
         return self.lift([src], lambda c: Val(f"(flat_map (fun {pat} => {body.code}) {c[0]})", body.ty))
 
+    def e_DictComp(self, e, env):
+        pair = ast.Tuple(elts=[e.key, e.value], ctx=ast.Load())
+        ast.copy_location(pair, e)
+        l = self.comp(pair, e.generators, env, e)
+        kt, vt = l.ty[1][1]
+        if kt != STR:
+            fail(e, "dict comprehension with keys other than str")
+        return self.lift([l], lambda c: Val(f"(py_dict_of_pairs String.eqb {c[0]})", Dict(kt, vt)))
+
     def e_ListComp(self, e, env):
         return self.comp(e.elt, e.generators, env, e)
 
@@ -753,6 +847,8 @@ class Translator:
         v = self.obj(self.tr(e, env))
         if v.ty[0] == "list":
             return v
+        if v.ty == STR:
+            return self.lift([v], lambda c: Val(f"(list_ascii_of_string {c[0]})", List(CHAR)))
         fail(e, f"cannot iterate over {v.ty}")
 
     def bind_target(self, target, ty, env):
@@ -800,11 +896,23 @@ class Translator:
                 # a combination (a tuple in Python) is a list here
                 self.cur.intrinsic_eff = True
                 return self.lift([l, k], lambda c: Val(f"(py_combinations {c[0]} {c[1]})", List(l.ty), True))
+            if isinstance(fn.value, ast.Name) and fn.value.id == "math" and fn.attr == "isfinite" and len(e.args) == 1:
+                v = self.coerce(self.tr(e.args[0], env), FLOAT, e)
+                return self.lift([v], lambda c: Val(f"(py_float_isfinite {c[0]})", BOOL))
             if isinstance(fn.value, ast.Name) and fn.value.id == "math" and fn.attr == "prod":
                 l = self.arg_list(e.args[0], env, INT)
                 return self.lift([l], lambda c: Val(f"(py_prod {c[0]})", INT))
+            if isinstance(fn.value, ast.Name) and (fn.value.id == "cls" or (fn.value.id in OBJECTS and fn.value.id not in env.vars)):
+                cname = self.cur.cls if fn.value.id == "cls" else fn.value.id
+                f = self.lookup((cname, fn.attr))
+                if f is None or f.kind not in ("static", "class"):
+                    fail(e, f"{cname}.{fn.attr} is not a translated static / class method")
+                return self.call_func(f, [self.tr(a, env) for a in e.args], e)
             recv = self.obj(self.tr(fn.value, env))
             k = (recv.ty[1] if recv.ty[0] == "obj" else recv.ty[0], fn.attr)
+            f0 = self.lookup(k)
+            if f0 is not None and f0.kind in ("static", "class"):
+                return self.call_func(f0, [self.tr(a, env) for a in e.args], e)
             f = self.lookup(k)
             if f is not None:
                 return self.call_func(f, [recv] + [self.tr(a, env) for a in e.args], e)
@@ -819,6 +927,14 @@ class Translator:
                     len(e.args[0].value) == 1 and e.args[1].value == "":
                 ch = coq_str(e.args[0].value)
                 return self.lift([recv], lambda c: Val(f"(str_remove_char {ch}%char {c[0]})", STR))
+            if recv.ty[0] == "dict" and fn.attr == "items" and not e.args:
+                return Val(recv.code, List(Tup([recv.ty[1], recv.ty[2]])), recv.eff)
+            if recv.ty[0] == "dict" and fn.attr == "keys" and not e.args:
+                return self.lift([recv], lambda c: Val(f"(map fst {c[0]})", List(recv.ty[1])))
+            if recv.ty == STR and fn.attr == "startswith" and len(e.args) == 1 and isinstance(e.args[0], ast.Constant) \
+                    and isinstance(e.args[0].value, str) and len(e.args[0].value) == 1:
+                ch = coq_str(e.args[0].value)
+                return self.lift([recv], lambda c: Val(f"(starts_with_char {ch}%char {c[0]})", BOOL))
             if recv.ty == STR and fn.attr == "join" and len(e.args) == 1:
                 l = self.arg_list(e.args[0], env, STR)
                 return self.lift([recv, l], lambda c: Val(f"(str_join {c[0]} {c[1]})", STR))
@@ -859,6 +975,23 @@ class Translator:
             n = self.coerce(self.tr(args[0], env), STR, e)
             a = self.coerce(self.tr(args[1], env), NODE, e)
             return self.lift([n, a], lambda c: Val(f"{{| c_name := {c[0]}; c_ast := {c[1]} |}}", CTC))
+        if name == "format" and len(args) == 2 and ast.unparse(args[1]) == "'f'" and isinstance(args[0], ast.Call) \
+                and ast.unparse(args[0].func) == "Decimal" and len(args[0].args) == 1 and isinstance(args[0].args[0], ast.Call) \
+                and ast.unparse(args[0].args[0].func) == "repr" and len(args[0].args[0].args) == 1:
+            v = self.coerce(self.tr(args[0].args[0].args[0], env), FLOAT, e)
+            self.cur.intrinsic_eff = True
+            # positional spelling of a finite float (Base/Str.v py_positional, validated by C06 / C11); Decimal raises for inf / nan
+            return self.lift([v], lambda c: Val(f"(match py_positional {c[0]} with Some t => Ok t | None => Err ValueError end)", STR, True))
+        if name == "escape" and len(args) in (1, 2):
+            v = self.coerce(self.tr(args[0], env), STR, e)
+            quot = "false"
+            if len(args) == 2:
+                if ast.unparse(args[1]).replace('"', "'") not in ("{'\\'': '&quot;'}", "{'\"': '&quot;'}".replace('"', "'")) and \
+                        not (isinstance(args[1], ast.Dict) and len(args[1].keys) == 1 and args[1].keys[0].value == '"'
+                             and args[1].values[0].value == "&quot;"):
+                    fail(e, "escape() with entities other than the double quote")
+                quot = "true"
+            return self.lift([v], lambda c: Val(f"(py_xml_escape {quot} {c[0]})", STR))
         if name == "len" and len(args) == 1:
             v = self.obj(self.tr(args[0], env))
             if v.ty[0] not in ("list", "dict"):
@@ -914,6 +1047,10 @@ class Translator:
                 return self.lift([v], lambda c: Val(f"(data_str {c[0]})", STR))
             if v.ty in (ASTT, NODE):
                 return self.lift([v], lambda c: Val(f"(node_str {c[0]})", STR))      # AST.__str__ / Node.__str__ (core)
+            if v.ty == ANY:
+                return self.lift([v], lambda c: Val(f"(aval_str {c[0]})", STR))
+            if v.ty == FLOAT:
+                return v if False else self.lift([v], lambda c: Val(f"{c[0]}", STR))
             f = self.lookup((v.ty[0], "__str__"))
             if f is not None:
                 return self.call_func(f, [v], e)
@@ -959,6 +1096,9 @@ class Translator:
             t = args[1]
             if isinstance(t, ast.Name) and (t.id,) == v.ty and not v.eff:
                 return Val("true", BOOL)
+            if v.ty == ANY and isinstance(t, ast.Name) and t.id in ("str", "bool", "int", "float"):
+                pat = {"str": "VStr _", "bool": "VBool _", "int": "VInt _ | VBool _", "float": "VFloat _"}[t.id]
+                return self.lift([v], lambda c: Val(f"(match {c[0]} with {pat} => true | _ => false end)", BOOL))
             if (v.ty == NDATA and isinstance(t, ast.Tuple) and [ast.unparse(x) for x in t.elts] == ["int", "float"]):
                 return self.lift([v], lambda c: Val(f"(ndata_is_number {c[0]})", BOOL))
             fail(e, "unsupported isinstance")
@@ -993,7 +1133,24 @@ class Translator:
                     f"(match {c[0]} with DOp o => match {fn} o with Some v => Ok v | None => Err KeyError end "
                     f"| _ => Err KeyError end)", vty, True))
             fail(e, f"table lookup with a key of type {k.ty}")
+        if isinstance(e.value, ast.Name) and e.value.id in self.module_tables and e.value.id not in env.vars:
+            k = self.tr(e.slice, env)
+            self.cur.intrinsic_eff = True
+            fn = f"py_{e.value.id}"
+            if k.ty == NDATA:
+                return self.lift([k], lambda c: Val(
+                    f"(match {c[0]} with DOp o => match {fn} o with Some v => Ok v | None => Err KeyError end "
+                    f"| _ => Err KeyError end)", STR, True))
+            if k.ty == ASTOP:
+                return self.lift([k], lambda c: Val(f"(match {fn} {c[0]} with Some v => Ok v | None => Err KeyError end)", STR, True))
+            fail(e, f"table lookup with a key of type {k.ty}")
         v = self.obj(self.tr(e.value, env))
+        if v.ty == NDATA and isinstance(e.slice, ast.Slice):
+            v = self.coerce(v, STR, e)
+        if v.ty == STR and isinstance(e.slice, ast.Slice) and e.slice.step is None and e.slice.upper is None \
+                and isinstance(e.slice.lower, ast.Constant) and isinstance(e.slice.lower.value, int) and e.slice.lower.value >= 0:
+            n = e.slice.lower.value
+            return self.lift([v], lambda c: Val(f"(str_drop {n} {c[0]})", STR))       # s[n:] on bytes: n ASCII characters
         if v.ty == ANY and not isinstance(e.slice, ast.Slice):
             k = self.coerce(self.tr(e.slice, env), STR, e)
             self.cur.intrinsic_eff = True
@@ -1042,6 +1199,11 @@ class Translator:
             fail(s, "return inside a loop")
         if s.value is None:
             fail(s, "bare return")
+        if self.written is not None:
+            v = self.tr(s.value, env)
+            if not (isinstance(s.value, ast.Name) and s.value.id == self.written[0] and v.code == self.written[1]):
+                fail(s, "the function returns something else than the text it wrote to the file")
+            return self.final(v)
         return self.final(self.tr(s.value, env))
 
     def s_Raise(self, s, rest, env, k):
@@ -1211,7 +1373,47 @@ class Translator:
         ast.fix_missing_locations(e)
         return self.assign(s.target.id, self.tr(e, env), rest, env, k, s)
 
+    def simple_assign_block(self, stmts):
+        for st in stmts:
+            if isinstance(st, ast.Assign) and len(st.targets) == 1 and isinstance(st.targets[0], ast.Name):
+                continue
+            if isinstance(st, (ast.AugAssign, ast.AnnAssign)) and isinstance(st.target, ast.Name) and getattr(st, "value", 1) is not None:
+                continue
+            if isinstance(st, ast.If) and self.simple_assign_block(st.body) and self.simple_assign_block(st.orelse):
+                continue
+            return False
+        return True
+
+    def s_If_joined(self, s, rest, env, k):
+        """an `if` whose branches only assign locals that are already bound: the branches yield the tuple of
+        those variables and the continuation is written once"""
+        names = self.assigned(s.body + s.orelse)
+        fresh = [self.fresh(n + "_") for n in names]
+
+        def k_tuple(en):
+            t = self.state_tuple(names, en)
+            return f"(Ok {t})" if self.mode_eff else t
+
+        def then_fn(en):
+            return Val(self.block(s.body, en, k_tuple), UNKNOWN, self.mode_eff)
+
+        def else_fn(en):
+            return Val(self.block(s.orelse, en, k_tuple), UNKNOWN, self.mode_eff)
+        code = self.tr_if_code(s.test, env, then_fn, else_fn, s)
+        en_after = env
+        for n, f in zip(names, fresh):
+            en_after = en_after.bind(n, f, self.vartypes.get(n, env.vars[n][1]))
+        pat = "'(" + ", ".join(fresh) + ")" if len(fresh) > 1 else fresh[0]
+        after = self.block(rest, en_after, k)
+        if self.mode_eff:
+            return f"(bind {code} (fun {pat} => {after}))"
+        return f"(let {pat} := {code} in {after})"
+
     def s_If(self, s, rest, env, k):
+        if self.join_ifs and rest and self.simple_assign_block(s.body) and self.simple_assign_block(s.orelse):
+            names = self.assigned(s.body + s.orelse)
+            if names and all(n in env.vars for n in names):
+                return self.s_If_joined(s, rest, env, k)
         # the continuation is duplicated into both branches: every path is translated with exactly the
         # variables bound on it (an unbound local read is an UnboundLocalError on that path only)
         def then_fn(en):
@@ -1333,6 +1535,27 @@ class Translator:
         return (f"(bind (whileM fuel (fun {spat} => {step}) {self.state_tuple(names, env)}) "
                 f"(fun {apat} => {after}))")
 
+    def s_With(self, s, rest, env, k):
+        """`with open(<path>, 'w', encoding='utf8') as file: file.write(<name>)` — the only I/O the writers do.
+        Nothing changes at the level of values; the text written must be the local that is returned afterwards
+        (checked at the `return`), which is the "returns what it wrote" clause of C12 read off the source."""
+        ok = (len(s.items) == 1 and isinstance(s.items[0].context_expr, ast.Call)
+              and ast.unparse(s.items[0].context_expr.func) == "open"
+              and len(s.items[0].context_expr.args) == 2 and ast.unparse(s.items[0].context_expr.args[1]) == "'w'"
+              and [(kw.arg, ast.unparse(kw.value)) for kw in s.items[0].context_expr.keywords] == [("encoding", "'utf8'")]
+              and isinstance(s.items[0].optional_vars, ast.Name) and len(s.body) == 1
+              and isinstance(s.body[0], ast.Expr) and isinstance(s.body[0].value, ast.Call)
+              and ast.unparse(s.body[0].value.func) == s.items[0].optional_vars.id + ".write"
+              and len(s.body[0].value.args) == 1 and isinstance(s.body[0].value.args[0], ast.Name))
+        if not ok:
+            fail(s, "unsupported with-statement")
+        name = s.body[0].value.args[0].id
+        if name not in env.vars or env.vars[name][1] != STR:
+            fail(s, "the text written is not a bound string variable")
+        self.tr(s.items[0].context_expr.args[0], env)        # the path expression must be translatable (and pure)
+        self.written = (name, env.vars[name][0])
+        return self.block(rest, env, k)
+
     def s_Continue(self, s, rest, env, k):
         if env.loop_k is None:
             fail(s, "continue outside a loop")
@@ -1370,6 +1593,7 @@ class Translator:
             if isinstance(node, ast.Name) and isinstance(node.ctx, ast.Store):
                 self.assigned_names.add(node.id)
         self.vartypes = {}
+        self.written = None
         for _ in range(8):
             self.seen_decl = set()
             env = Env()
@@ -1403,6 +1627,8 @@ def collect(unit):
     funcs = {}
     enums = {}
     consts = {}
+    tables = {}
+    strlists = {}
     for path, cls_methods, functions in unit["files"]:
         full = os.path.join(REPO_PKG, path)
         tree = ast.parse(open(full, encoding="utf-8").read(), full)
@@ -1420,6 +1646,26 @@ def collect(unit):
                     enums[f"{cn}.{sub.name}"] = {t.id: st.value.value for st in sub.body if isinstance(st, ast.Assign)
                                                  and isinstance(st.value, ast.Constant) and isinstance(st.value.value, str)
                                                  for t in st.targets if isinstance(t, ast.Name)}
+        for st in tree.body:
+            tgt = st.targets[0] if isinstance(st, ast.Assign) and len(st.targets) == 1 else (
+                st.target if isinstance(st, ast.AnnAssign) else None)
+            if isinstance(tgt, ast.Name) and isinstance(getattr(st, "value", None), ast.Dict) and st.value.keys and all(
+                    isinstance(k, ast.Attribute) and isinstance(k.value, ast.Name) and k.value.id == "ASTOperation"
+                    and k.attr in ASTOPS for k in st.value.keys):
+                rows = []
+                for k, v in zip(st.value.keys, st.value.values):
+                    if isinstance(v, ast.Constant) and isinstance(v.value, str):
+                        rows.append((k.attr, v.value))
+                    elif ast.unparse(v) == f"ASTOperation.{k.attr}.value":
+                        rows.append((k.attr, k.attr))
+                    else:
+                        rows = None
+                        break
+                if rows is not None and len({r[0] for r in rows}) == len(rows):
+                    tables[tgt.id] = rows
+            if isinstance(tgt, ast.Name) and isinstance(getattr(st, "value", None), (ast.Tuple, ast.List)) and st.value.elts and all(
+                    isinstance(x, ast.Constant) and isinstance(x.value, str) for x in st.value.elts):
+                strlists[tgt.id] = [x.value for x in st.value.elts]
         for st in tree.body:
             if isinstance(st, ast.Assign) and len(st.targets) == 1 and isinstance(st.targets[0], ast.Name):
                 v = st.value
@@ -1444,8 +1690,8 @@ def collect(unit):
             if "__init__" not in ms:
                 raise Fail(f"{path}: {cls}.__init__ not found")
             init = ms["__init__"]
-            if len(init.args.args) != 1:
-                fail(init, "constructor with parameters")
+            ctor_params = [(a.arg, parse_ann(a.annotation, a)) for a in init.args.args[1:]]
+            CTOR_PARAMS[cls] = ctor_params
             fields = []
             for st in init.body:
                 if isinstance(st, ast.Expr) and isinstance(st.value, ast.Constant):
@@ -1457,6 +1703,8 @@ def collect(unit):
                     ty = parse_ann(st.annotation, st)
                 elif isinstance(st.value, ast.Constant) and isinstance(st.value.value, int) and not isinstance(st.value.value, bool):
                     ty = INT
+                elif isinstance(st.value, ast.Name) and st.value.id in dict(ctor_params):
+                    ty = dict(ctor_params)[st.value.id]
                 else:
                     fail(st, "field without a type annotation")
                 fields.append((tg.attr, ty, st.value))
@@ -1466,6 +1714,14 @@ def collect(unit):
                     raise Fail(f"{path}: method {cls}.{m} not found")
                 fi = FuncInfo(cls, ms[m], f"py_{cls}_{m}")
                 fi.is_obj = True
+                decos = [ast.unparse(d) for d in ms[m].decorator_list]
+                if decos == ["staticmethod"]:
+                    fi.kind = "static"
+                elif decos == ["classmethod"]:
+                    fi.kind = "class"
+                elif decos:
+                    fail(ms[m], "decorated method")
+                ms[m].decorator_list = []
                 funcs[(cls, m)] = fi
         for fn in functions:
             if fn not in topfuncs:
@@ -1479,24 +1735,29 @@ def collect(unit):
             fail(f.node, "decorated function")
         defaults = [None] * (len(a.args) - len(a.defaults)) + list(a.defaults)
         for arg, d in zip(a.args, defaults):
+            if arg.arg == "cls" and f.kind == "class":
+                continue
             if arg.arg == "self":
                 f.params.append(("self", ("obj", f.cls) if getattr(f, "is_obj", False) else (f.cls,), None))
             elif arg.arg == "other" and f.node.name in ("__eq__", "__lt__"):
                 f.params.append(("other", (f.cls,), None))     # compared only with objects of its own class here
             else:
-                f.params.append((arg.arg, parse_ann(arg.annotation, arg), d))
+                f.params.append((arg.arg, OVERRIDE_PARAM.get((f.cls, f.node.name, arg.arg)) or parse_ann(arg.annotation, arg), d))
         f.ret = OVERRIDE_RET.get(key) or parse_ann(f.node.returns, f.node)
         if getattr(f, "is_obj", False) and f.ret == NONE:
             f.ret, f.mutator = ("obj", f.cls), True       # a method that only changes the object: the new state
-    return funcs, enums, consts
+    return funcs, enums, consts, tables, strlists
 
 
 def translate_unit(unit, externals):
-    funcs, enums, consts = collect(unit)
+    funcs, enums, consts, tables, strlists = collect(unit)
     fresh = set()
     tr = Translator(unit["name"], funcs, externals)
     tr.enums = enums
     tr.module_consts = consts
+    tr.join_ifs = bool(unit.get("join_ifs"))
+    tr.module_tables = tables
+    tr.module_strlists = strlists
     # top-level functions that return a list they created themselves (so the caller may mutate it)
     for (cls, name), f in funcs.items():
         if cls is None:
@@ -1523,7 +1784,7 @@ def translate_unit(unit, externals):
                 tr.translate_function(f, True)
             except Fail as e:
                 f.failed, progress = str(e), True
-    by_name = {f.coqname: f for f in list(funcs.values()) + list(externals.values())}
+    by_name = {f.coqname: f for f in list(externals.values()) + list(funcs.values())}
     # recursion: only self-recursion is supported
     for f in funcs.values():
         f.rec = f.coqname in f.calls
@@ -1570,6 +1831,10 @@ def translate_unit(unit, externals):
     for f in funcs.values():
         visit(f)
     out = []
+    for tname, rows in tables.items():
+        out.append(f"(* {tname}: a module-level dict from ASTOperation to text *)\nDefinition py_{tname} (o : astop) : option string :=\n  match o with\n"
+                   + "".join(f"  | {k} => Some {coq_str(v)}\n" for k, v in rows)
+                   + ("  | _ => None\n" if len(rows) < len(ASTOPS) else "") + "  end.\n")
     pending = {}
     for cls in [c for objs in unit.get("objects", {}).values() for c in objs]:
         fields = OBJECTS[cls]
@@ -1579,15 +1844,19 @@ def translate_unit(unit, externals):
         tr.mode_eff = False
         tr.assigned_names = set()
         inits = []
+        cenv = Env()
+        for pn, pt in CTOR_PARAMS.get(cls, []):
+            cenv = cenv.bind(pn, pname(pn), pt)
         for fn, ft, fv in fields:
             if isinstance(fv, ast.Dict) and not fv.keys:
                 v = Val("(VMap [])", ANY) if ft == ANY else Val("[]", ft)
             else:
-                v = tr.coerce(tr.tr(fv, Env()), ft, fv)
+                v = tr.coerce(tr.tr(fv, cenv), ft, fv)
             if v.eff:
                 raise Fail(f"{cls}.__init__: effectful field initialiser")
             inits.append(f"{cls}_{fn} := {v.code}")
-        out.append(f"(* {cls}.__init__ *)\nDefinition py_{cls}_new : py_{cls}_state :=\n  {{| " + "; ".join(inits) + " |}.\n")
+        cps = "".join(f" ({pname(pn)} : {coq_ty(pt)})" for pn, pt in CTOR_PARAMS.get(cls, []))
+        out.append(f"(* {cls}.__init__ *)\nDefinition py_{cls}_new{cps} : py_{cls}_state :=\n  {{| " + "; ".join(inits) + " |}.\n")
     for f in order:
         src = f"{f.cls + '.' if f.cls else ''}{f.node.name}"
         if not f.failed:
@@ -1643,6 +1912,8 @@ UNITS = [
                      "is_optional", "is_or_group", "is_alternative_group", "is_mutex_group", "is_cardinality_group",
                      "is_group", "is_multiple_group_decomposition", "is_leaf", "is_boolean", "is_numerical",
                      "is_string", "is_multifeature"],
+         "Attribute": ["get_name", "get_default_value", "get_null_value", "get_domain"],
+         "Domain": ["get_range_list", "get_element_list"],
          "Constraint": ["get_features", "is_logical_constraint", "is_arithmetic_constraint",
                         "is_aggregation_constraint", "is_single_feature_constraint", "is_simple_constraint",
                         "is_complex_constraint", "is_requires_constraint", "is_excludes_constraint",
@@ -1684,11 +1955,27 @@ UNITS = [
              {"FMAverageBranchingFactor": ["execute", "get_result", "get_average_branching_factor"]},
          "operations/fm_variation_points.py": {"FMVariationPoints": ["execute", "get_result", "variation_points"]},
      }},
+    {"name": "afm", "imports": " Gen.Src_fm", "join_ifs": True,
+     "files": [("transformations/afm_writer.py", {}, [])],
+     "objects": {"transformations/afm_writer.py": {"AFMWriter": [
+         "transform", "serialize_relationships", "recursive_relationship_read", "read_relation", "serialize_attributes",
+         "read_attribute", "value_text", "serialize_constraints", "recursive_constraint_read", "_constraint_operand"]}}},
+    {"name": "clafer", "imports": " Gen.Src_fm", "join_ifs": True,
+     "files": [("transformations/clafer_writer.py", {},
+                ["fm_to_clafer", "read_features", "_in_any_number_group", "read_feature_attributes", "_double_literal",
+                 "parse_group_type", "read_constraints", "serialize_constraint", "_serialize_operand", "_serialize_node",
+                 "attributes_definition", "parse_type_value", "safename", "safecharacters"])],
+     "objects": {"transformations/clafer_writer.py": {"ClaferWriter": ["transform"]}}},
+    {"name": "splot", "imports": " Gen.Src_fm",
+     "files": [("transformations/splot_writer.py", {},
+                ["fm_to_splot", "add_features", "add_constraints", "safename", "safecharacters"])],
+     "objects": {"transformations/splot_writer.py": {"SPLOTWriter": ["transform"]}}},
     {"name": "pl", "imports": " Gen.Src_fm",
      "files": [("transformations/pl_writer.py", {},
                 ["to_exp", "get_relation_formula", "get_mandatory_formula", "get_optional_formula", "get_or_formula",
                  "get_alternative_formula", "get_mutex_formula", "get_cardinality_formula", "get_constraint_formula",
-                 "_operand_formula", "_node_formula"])]},
+                 "_operand_formula", "_node_formula"])],
+     "objects": {"transformations/pl_writer.py": {"PLWriter": ["transform"]}}},
     {"name": "glencoe", "imports": " Gen.Src_fm Gen.Tables_glencoe",
      "files": [("transformations/glencoe_writer.py", {},
                 ["_to_json", "_get_features_info", "_get_tree_info", "_get_constraints_info", "_get_ctc_info"])]},
@@ -1712,7 +1999,11 @@ def main():
     externals = {}
     rc = 0
     report = {}
+    per_unit = {}
     for unit in UNITS:
+        externals = {}
+        for u in unit["imports"].split():
+            externals.update(per_unit.get(u.replace("Gen.Src_", ""), {}))
         try:
             funcs, body = translate_unit(unit, externals)
         except Fail as e:
@@ -1724,7 +2015,7 @@ def main():
             rc = 1
             report[unit["name"]] = {"unit": str(e)}
             continue
-        externals.update(funcs)
+        per_unit[unit["name"]] = funcs
         bad = {f.coqname: f.failed for f in funcs.values() if f.failed}
         report[unit["name"]] = bad
         for n, why in bad.items():
